@@ -1115,7 +1115,10 @@ func (a *Analysis) CheckC20(rep *Report, tier string) {
 	for _, t := range a.U.Tables {
 		for _, r := range t.Regs {
 			if r.Closure != nil {
-				rep.Ob("V3-factory-captures-nothing", t.Name+"["+r.Key+"]", len(r.Closure.FreeVars) == 0, a.P.Pos(r.Pos()), "registered factory closes over variables of its environment (state shared between calls)")
+				// (a factory found by evaluating the start-up code may wrap a constructor function it captured – a
+				// constant of the program, not state)
+				capturesNothing := len(r.Closure.FreeVars) == 0 || (r.At.IsValid() && !r.CapturesState)
+				rep.Ob("V3-factory-captures-nothing", t.Name+"["+r.Key+"]", capturesNothing, a.P.Pos(r.Pos()), "registered factory closes over variables of its environment (state shared between calls)")
 			}
 			rep.Ob("V3-factory-fresh", t.Name+"["+r.Key+"]", r.Fresh, a.P.Pos(r.Pos()), "factory returns a shared (or nil) object instead of a fresh allocation")
 		}
